@@ -356,6 +356,18 @@ EvalAt(items0, b) ==
         syms  |-> { [file |-> items[i].fname, inst |-> items[i].inst, name |-> NameOf(items, i), value |-> value(i),
                      label |-> items[i].s.k = "label", off |-> lay.offs[i]] : i \in syms }]
 
+SymCountsOK(fs) ==
+    \A q \in DOMAIN fs : \A r \in DOMAIN fs[q] :
+        (fs[q][r].k = "repeat" /\ "c" \in DOMAIN fs[q][r]) =>
+            Cardinality({ x \in DOMAIN fs[q] : fs[q][x].k = "const" /\ fs[q][x].n = fs[q][r].c }) = 1
+            /\ \E x \in DOMAIN fs[q] : fs[q][x].k = "const" /\ fs[q][x].n = fs[q][r].c /\ ~fs[q][x].x /\ fs[q][x].e = [t |-> "num", v |-> fs[q][r].n]
+
+(* a base directive inside a block whose count is defined later is compiled late: with a second base directive in the program the
+   order in which the two are met is not the order of the text, and which of them is "the second" is left undefined *)
+CondBaseOK(fs, items) ==
+    (\E q \in DOMAIN fs : \E r \in DOMAIN fs[q] : fs[q][r].k = "repeat" /\ "c" \in DOMAIN fs[q][r]
+                                                   /\ \E x \in DOMAIN fs[q][r].body : fs[q][r].body[x].k \in {"link", "dotset"})
+    => Cardinality(BaseSetters(items)) <= 1
 Eval(fs) ==
     LET fl    == Flatten(fs)
         items == fl.items
@@ -365,7 +377,7 @@ Eval(fs) ==
     IN [items |-> items, insts |-> fl.insts, own |-> ob, bases |-> bases, runs |-> runs,
         ok  |-> ob.st # "err" /\ \A b \in bases : runs[b].ok,
         cyc |-> ob.cyc \/ \E b \in bases : runs[b].cyc,
-        skip |-> ob.unsure \/ DanglingExtern(items)]
+        skip |-> ob.unsure \/ DanglingExtern(items) \/ ~SymCountsOK(fs) \/ ~CondBaseOK(fs, items)]
 
 (* ------------------------------------------------------------------ alphabets (cfg: Alphabet <- XxxAlphabet) *)
 I0(op)          == [k |-> "insn", op |-> op]
@@ -378,6 +390,10 @@ LabX(n)         == [k |-> "label", n |-> n, x |-> TRUE]
 Const(n, e)     == [k |-> "const", n |-> n, e |-> e, x |-> FALSE]
 ConstX(n, e)    == [k |-> "const", n |-> n, e |-> e, x |-> TRUE]
 Rep(n, body)    == [k |-> "repeat", n |-> n, body |-> body]
+(* '.repeat c { body }' with the count written as a symbol c that the same file defines as the literal n (before or after the
+   directive: a count defined later makes the real assembler compile the body late).  Programs in which c is not defined exactly
+   once as that literal in the same file are not replayed (SymCountsOK). *)
+RepC(n, c, body) == [k |-> "repeat", n |-> n, c |-> c, body |-> body]
 Inc(f)          == [k |-> "include", f |-> f]
 Blkb(e)         == [k |-> "blkb", e |-> e]
 Blkw(e)         == [k |-> "blkw", e |-> e]
@@ -456,6 +472,12 @@ LinkAlphabet ==        \* C12: .link / leading '. =' with expressions whose depe
     DotSet(Bin("+", Dot, Num(0))), DotSet(Bin("+", S, Num(64))),
     Const("k", Bin("-", E, S)), Lab("s"), Lab("e"), I0("nop"), W(<<S, E>>), Blkb(Num(3)), By(<<Num(1)>>) }
 
+LinkTopAlphabet ==     \* C12: images at the top of the address space, negative targets and bases (addresses are taken modulo 2^16)
+  { Link(Num(65472)), Link(Num(-64)), DotSet(Num(-32)), DotSet(Num(-2)), DotSet(Num(65504)), DotSet(Bin("-", S, E)), DotSet(Bin("-", Num(0), Num(48))),
+    Lab("s"), Lab("e"), I0("nop"), W(<<E>>), Blkb(Num(3)) }
+LinkCondAlphabet ==    \* C12: the base set inside a conditionally assembled block ('.repeat flag { .link X }', flag defined before or after)
+  { RepC(1, "on", << Link(K) >>), RepC(0, "off", << Link(Num(2048)) >>), RepC(1, "on", << DotSet(K) >>), RepC(1, "on", << Link(Bin("+", K, Num(6))) >>),
+    Rep(1, << Link(K) >>), Const("on", Num(1)), Const("off", Num(0)), Lab("s"), Lab("e"), W(<<S>>), I0("nop") }
 LinkCoreAlphabet ==    \* C12: the core of LinkAlphabet, small enough for all programs of 4 statements (labels and code on both sides of the directive)
   { Link(Bin("+", K, Bin("-", E, S))), Link(Bin("-", Bin("<<", E, Num(1)), Bin("<<", S, Num(1)))), Link(Bin("-", Bin("-", Bin("+", K, Bin("*", Num(2), E)), S), S)),
     Link(E), DotSet(Bin("+", K, Bin("-", E, S))), DotSet(Bin("+", Dot, Num(3))), Lab("s"), Lab("e"), I0("nop"), Blkb(Num(3)), W(<<S, E>>) }
